@@ -184,6 +184,17 @@ def run(ctx):
             check_subprocess(ctx, ix, [rng.choice(empty)])
         else:
             check_subprocess(ctx, ix, [rng.choice(allr) for _ in range(rng.randint(1, 2))])
+    # regions whose start has fewer digits than their end (9-10, 5-12: "9" > "10" as text) through the real command line, which also runs the
+    # argument validation that in-process calls of run() skip (added after seeded change C05-5)
+    n_digit = 0
+    for ix in files:
+        if n_digit >= (4 if ctx.quick else 30):
+            break
+        cand = [r for r in regions_of(ix.g) if r[1] < 10 <= r[2] and str(r[1]) > str(r[2])]
+        if cand:
+            check_subprocess(ctx, ix, [rng.choice(cand)], section="subprocess-digit-count")
+            n_digit += 1
+    ctx.bound("%d sub-process runs with a region START-END in which START has fewer digits than END (e.g. 9-10)" % n_digit)
     ctx.exhaustive = False
     return ("each case = one (graph, indexed GAF file, region list, format) query answered by the real view code vs. the records traversing "
             "(own definition) a node whose stable interval intersects a region (node set computed from the GFA); all (a,b) of every contig "
